@@ -38,3 +38,60 @@ def lpct_job(width):
     elif r != "unsat":
         res["unsupported"].append("L-pct at width %d: solver answered %s" % (width, r))
     return res
+
+
+def fpdiv_cmp(d, op, c, bits=53, timeout_ms=300000):
+    """For all integers 0 <= x < 2^bits:  RN(x / d) <op> c  ==  (x <op'> c*d) over
+    the integers - i.e. evaluating `x / d <op> c` exactly (as symx does) agrees with
+    CPython's float result (int/int true division is correctly rounded)."""
+    F = z3.Float64()
+    rm = z3.RNE()
+    x = z3.BitVec("x", bits + 1)
+    s = z3.Solver()
+    s.set("timeout", timeout_ms)
+    s.add(z3.ULT(x, 2 ** bits))
+    fx = z3.fpUnsignedToFP(rm, x, F)
+    q = z3.fpDiv(rm, fx, z3.FPVal(float(d), F))
+    fc = z3.FPVal(float(c), F)
+    cd = int(c * d) if float(c * d) == int(c * d) else None
+    if cd is None or float(d) != d or cd < 0:
+        return "unknown", 0.0
+    if cd >= 2 ** bits:
+        cdv, over = None, True
+    else:
+        cdv, over = z3.BitVecVal(cd, bits + 1), False
+    fop = {"gt": z3.fpGT, "ge": z3.fpGEQ, "lt": z3.fpLT, "le": z3.fpLEQ, "eq": z3.fpEQ}[op]
+    if over:
+        ival = z3.BoolVal(op in ("lt", "le"))
+    else:
+        ival = {"gt": z3.UGT, "ge": z3.UGE, "lt": z3.ULT, "le": z3.ULE, "eq": lambda a, b: a == b}[op](x, cdv)
+    s.add(fop(q, fc) != ival)
+    t = time.time()
+    r = s.check()
+    return str(r), time.time() - t
+
+
+def _fpdiv_star(a):
+    return fpdiv_cmp(*a)
+
+
+def fpdiv_jobs(fp_log):
+    import multiprocessing as mp
+    out = []
+    fp_log = list(fp_log)
+    if len(fp_log) > 1:
+        with mp.get_context("fork").Pool(min(16, len(fp_log))) as pool:
+            rs = pool.map(_fpdiv_star, fp_log)
+    else:
+        rs = [fpdiv_cmp(*a) for a in fp_log]
+    for (d, op, c), (r, secs) in zip(fp_log, rs):
+        res = {"label": "lemma.fpdiv.%s.%s.%s" % (d, op, c), "func": "fpdiv_cmp", "params": {"d": d, "op": op, "c": c},
+               "failures": [], "known": [], "unsupported": [], "witnesses": {},
+               "samples": [{"inputs": {"lemma": "forall 0<=x<2^53: RN(x/%s) %s %s  <=>  x %s %s" % (d, op, c, op, c * d), "result": r},
+                            "notes": {}, "decisions": 0}],
+               "stats": {"paths": 1, "queries": 1, "solver_s": round(secs, 2), "checks": 1,
+                         "checks_by_obligation": {"L-fpdiv": 1}}, "wall_s": round(secs, 2), "error": None}
+        if r != "unsat":
+            res["unsupported"].append("float division lemma not proved for x/%s %s %s: %s" % (d, op, c, r))
+        out.append(res)
+    return out
